@@ -68,3 +68,134 @@ def run(ctx):
         _check(case, ctx)
 
     ctx.run_hypothesis(gfi_hist.st_history(CFG, kinds=TOP, nops=(1, 3)), chk, ctx.pick(6, 6), salt="main")
+
+
+# ------------------------------------------------------------------------------------------------
+# non-leading in_axes: a matrix argument mapped along axis 1 (the only way to reach the axis
+# argument of Vmap.edit_index); hand-written program family, scipy oracle
+# ------------------------------------------------------------------------------------------------
+
+import scipy.stats as sps
+
+
+@st.composite
+def axis_case_strategy(draw):
+    n = draw(st.integers(2, 4))
+    fl = st.integers(-200, 200).map(lambda i: i / 100.0)
+    return {
+        "family": "axis",
+        "n": n,
+        "M": [[draw(fl) for _ in range(n)] for _ in range(2)],
+        "M2": [[draw(fl) for _ in range(n)] for _ in range(2)],
+        "coef": [draw(fl), draw(fl)],
+        "s": draw(st.integers(50, 200).map(lambda i: i / 100.0)),
+        "key": draw(st.integers(0, 2**31 - 1)),
+        "constrain": draw(st.lists(st.tuples(st.integers(0, 3), fl).map(list), min_size=0, max_size=3)),
+        "edits": draw(st.lists(st.tuples(st.integers(0, 3), st.sampled_from(["z", "w"]), fl).map(list), min_size=1, max_size=3)),
+    }
+
+
+def _axis_ref(M, coef, s, z, w):
+    M = np.asarray(M, dtype=np.float64)
+    mu = M[0] * coef[0] + M[1] * coef[1]
+    return float(np.sum(sps.norm.logpdf(z, mu, s)) + np.sum(sps.norm.logpdf(w, z, 1.0))), np.asarray(z) + M[0]
+
+
+def check_axis_case(case, ctx=None):
+    import genjax
+    import jax
+    import jax.numpy as jnp
+    from genjax import ChoiceMapBuilder as C
+    from genjax import Diff, IndexRequest, Update
+
+    c0, c1 = case["coef"]
+
+    @genjax.gen
+    def elem(col, s):
+        z = genjax.normal(col[0] * c0 + col[1] * c1, s) @ "z"
+        w = genjax.normal(z, 1.0) @ "w"
+        return z + col[0]
+
+    gf = elem.vmap(in_axes=(1, None))
+    n = case["n"]
+    M = jnp.asarray(case["M"], dtype=jnp.float32)
+    s = jnp.asarray(case["s"], dtype=jnp.float32)
+    key = jax.random.key(case["key"])
+    k0, k1, k2 = jax.random.split(key, 3)
+
+    def read(tr):
+        ch = tr.get_choices()
+        z = np.array([float(ch[i, "z"]) for i in range(n)])
+        w = np.array([float(ch[i, "w"]) for i in range(n)])
+        return z, w
+
+    def agree(tag, tr, Mx, z_exp=None, w_exp=None):
+        z, w = read(tr)
+        if z_exp is not None and (not np.allclose(z, z_exp, atol=1e-6) or not np.allclose(w, w_exp, atol=1e-6)):
+            raise Violation(f"axis:{tag}:choices", f"choices z={z} w={w}, expected z={z_exp} w={w_exp}", case)
+        sc, rv = _axis_ref(Mx, case["coef"], case["s"], z, w)
+        if not gfi.close(gfi.fval(tr.get_score()), sc, 1e-4 * (1 + 2 * n) * max(1.0, abs(sc) / (2 * n))):
+            raise Violation(f"axis:{tag}:score", f"score {gfi.fval(tr.get_score())!r} != {sc!r} (in_axes=(1, None))", case)
+        if not np.allclose(np.asarray(tr.get_retval()), rv, atol=1e-5):
+            raise Violation(f"axis:{tag}:retval", f"retval {np.asarray(tr.get_retval())} != {rv}", case)
+        return z, w, sc
+
+    # importance with per-index constraints
+    cons = {}
+    for i, v in case["constrain"]:
+        cons[i % n] = v
+    chm = C.n()
+    for i, v in cons.items():
+        chm = chm | C[i, "z"].set(jnp.asarray(v, dtype=jnp.float32))
+    tr, wgt = gf.importance(k0, chm, (M, s))
+    z, w, sc = agree("importance", tr, case["M"])
+    for i, v in cons.items():
+        if abs(z[i] - v) > 1e-6:
+            raise Violation("axis:importance:constraint", f"element {i} holds z={z[i]}, constrained to {v}", case)
+    Mn = np.asarray(case["M"], dtype=np.float64)
+    mu = Mn[0] * c0 + Mn[1] * c1
+    exp_w = float(sum(sps.norm.logpdf(v, mu[i], case["s"]) for i, v in cons.items()))
+    if not gfi.close(gfi.fval(wgt), exp_w, 1e-4 * (1 + len(cons))):
+        raise Violation("axis:importance:weight", f"weight {gfi.fval(wgt)!r} != {exp_w!r}", case)
+    # index edits
+    nochange = Diff.no_change((M, s))
+    for j, (i, addr, v) in enumerate(case["edits"]):
+        i = i % n
+        kk = jax.random.fold_in(k1, j)
+        tr2, w2, _rd, _bwd = IndexRequest(jnp.array(i), Update(C[addr].set(jnp.asarray(v, dtype=jnp.float32)))).edit(kk, tr, nochange)
+        z_exp, w_exp = z.copy(), w.copy()
+        (z_exp if addr == "z" else w_exp)[i] = v
+        z2, w2v, sc2 = agree(f"index-edit", tr2, case["M"], z_exp, w_exp)
+        if not gfi.close(gfi.fval(w2), sc2 - sc, 2e-4 * (1 + 2 * n) * max(1.0, abs(sc) / (2 * n), abs(sc2) / (2 * n))):
+            raise Violation("axis:index-edit:weight", f"weight {gfi.fval(w2)!r} != new score - old score {sc2 - sc!r} (element {i}, in_axes=(1, None))", case)
+        tr, z, w, sc = tr2, z2, w2v, sc2
+    # update with a new matrix
+    M2 = jnp.asarray(case["M2"], dtype=jnp.float32)
+    tr3, w3, _rd, _bw = Update(C.n()).edit(k2, tr, (Diff.unknown_change(M2), Diff.no_change(s)))
+    z3, w3v, sc3 = agree("arg-update", tr3, case["M2"], z, w)
+    if not gfi.close(gfi.fval(w3), sc3 - sc, 2e-4 * (1 + 2 * n) * max(1.0, abs(sc) / (2 * n), abs(sc3) / (2 * n))):
+        raise Violation("axis:arg-update:weight", f"weight {gfi.fval(w3)!r} != {sc3 - sc!r}", case)
+    if ctx is not None:
+        ctx.note_case(case, nontrivial=True, classes=["family:axis", f"axis:n={n}", "axis:square" if n == 2 else "axis:non-square"])
+
+
+_hist_run, _hist_replay = run, replay
+
+
+def run(ctx):  # noqa: F811
+    _hist_run(ctx)
+
+    def chk(case):
+        check_axis_case(case, ctx)
+
+    ctx.run_hypothesis(axis_case_strategy(), chk, ctx.pick(2, 4), salt="axis")
+
+
+def replay(ctx, case):  # noqa: F811
+    if case.get("family") == "axis":
+        try:
+            check_axis_case(case, None)
+        except Violation as v:
+            ctx.violation(v.klass, v.message, case)
+        return
+    _hist_replay(ctx, case)
